@@ -31,15 +31,15 @@ ASSUMPTIONS = [
   "CPU device, canonical thread order",
 ]
 BUDGET = {
-  "quick": dict(examples=64, seconds=420, workers=16),
+  "quick": dict(examples=128, seconds=420, workers=16),
   "thorough": dict(examples=1600, seconds=1500, workers=16),
 }
 
 
-def strategy(tier):
+def _strategy(tier, **cfg_over):
   return st.fixed_dictionaries(
     dict(
-      cfg=gen.cfg_strategy(
+      cfg=gen.cfg_strategy(**{**dict(
         nroot=st.integers(1, 4),
         maxdepth=st.integers(0, 2),
         plane=st.booleans(),
@@ -52,7 +52,7 @@ def strategy(tier):
         frictionloss=st.sampled_from([0.0, 0.4]),
         condim_menu=st.sampled_from([[3], [1, 3], [3, 4, 6], [1, 3, 4, 6]]),
         geom_menu=st.sampled_from([["sphere"], ["sphere", "capsule", "box"], ["box"]]),
-      ),
+      ), **cfg_over}),
       jacobian=st.sampled_from(["dense", "sparse"]),
       cone=st.sampled_from(["pyramidal", "elliptic"]),
       solver=st.sampled_from(["Newton", "CG"]),
@@ -65,6 +65,16 @@ def strategy(tier):
       iterations=st.sampled_from([None, None, 1, 2, 3]),
     )
   )
+
+
+
+def strategy(tier):
+  base = _strategy(tier)
+  # 1 case in 5: the constraint list ends with an equality block (no friction, limit or contact rows after it), so that at the exact-fit capacity the
+  # LAST row block is a connect (3 rows), weld (6 rows) or joint (1 row) block: every row builder's own capacity guard meets njmax == nefc
+  eq_last = _strategy(tier, plane=False, contacts="none", limits=0.0, frictionloss=0.0, equalities=st.integers(1, 3),
+                      eq_menu=st.sampled_from([["weld"], ["weld"], ["connect"], ["joint"], ["connect", "weld"]]), p_eq_inactive=0.0)
+  return st.one_of(base, base, base, base, eq_last)
 
 
 def _build(case):
